@@ -15,7 +15,7 @@ func init() { registry["C14"] = checkC14 }
 // For completion every declaration gets a unique name derived from TLC's declaration id, and every occurrence is
 // spelled with the name of the declaration TLC binds it to (globals: "pg" + their model name). The renderer thus
 // needs no scoping knowledge; shadowing disappears, visibility (which is what completion is about) is unchanged.
-func c14Name(id int) string { return fmt.Sprintf("p%c%d", 'a'+rune(id%3), id) }
+func c14Name(id int) string     { return fmt.Sprintf("p%c%d", 'a'+rune(id%3), id) }
 func c14Global(n string) string { return "pg" + n }
 
 func c14Rename(tc *scCase) []scItem {
@@ -72,6 +72,8 @@ type c14Cursor struct {
 	file    int
 	line    int
 	col     int
+	expr    bool // the prefix replaces an identifier inside an expression of statement `item`
+	item    int
 	vis     []int
 	pend    []int
 	stepP   int // completion with prefix "p"
@@ -80,9 +82,10 @@ type c14Cursor struct {
 }
 
 type c14Data struct {
-	tc  *scCase
-	r   *scRender
-	cur []c14Cursor
+	tc    *scCase
+	items []scItem
+	r     *scRender
+	cur   []c14Cursor
 }
 
 func compParams(file string, line, col int) json.RawMessage {
@@ -108,7 +111,7 @@ func c14Build(seed int64) func(id int, raw json.RawMessage) *Job {
 		for i, f := range r.Files {
 			pc.Steps = append(pc.Steps, openStep(f, r.Text[i]))
 		}
-		d := &c14Data{tc: &tc, r: r}
+		d := &c14Data{tc: &tc, r: r, items: items}
 		// candidate cursor points: before each item's line (inside whatever block is open there), and the end of the last file
 		// (one-line layout: the same points, the prefix is typed between two statements of the line)
 		type pt struct {
@@ -191,6 +194,43 @@ func c14Build(seed int64) func(id int, raw json.RawMessage) *Job {
 			pc.Steps = append(pc.Steps, changeStep(f, ver, p.line, 0, p.line+1, 0, ""))
 			ver++
 			d.cur = append(d.cur, cu)
+		}
+		// expression positions: the name read by a statement (initialiser, condition, bound, until-condition, argument,
+		// return value) is overtyped with the prefix; what is visible there is the statement's own vis set
+		var uses []int
+		for k := range r.Occ {
+			if o := &r.Occ[k]; o.Role == "use" && o.Slot == "u" && items[o.Item].hasVis {
+				uses = append(uses, k)
+			}
+		}
+		if len(uses) > 0 {
+			picks := map[int]bool{uses[int(hv>>17)%len(uses)]: true, uses[int(hv>>41)%len(uses)]: true}
+			var ks []int
+			for k := range picks {
+				ks = append(ks, k)
+			}
+			sort.Ints(ks)
+			for _, k := range ks {
+				o := &r.Occ[k]
+				f := r.Files[o.File]
+				it := items[o.Item]
+				cu := c14Cursor{file: o.File, line: o.Line, col: o.Col, vis: it.Vis, pend: it.VisPend, expr: true, item: o.Item}
+				if it.hasVisX {
+					cu.vis = it.VisX
+				}
+				cu.prefix2 = "p" + string(rune('a'+int(hv>>7)%3))
+				pc.Steps = append(pc.Steps, changeStep(f, ver, o.Line, o.Col, o.Line, o.Col+len(o.Name), "p"))
+				ver++
+				pc.Steps = append(pc.Steps, proto.Step{M: "textDocument/completion", P: compParams(f, o.Line, o.Col+1)})
+				cu.stepP = len(pc.Steps) - 1
+				pc.Steps = append(pc.Steps, changeStep(f, ver, o.Line, o.Col+1, o.Line, o.Col+1, cu.prefix2[1:]))
+				ver++
+				pc.Steps = append(pc.Steps, proto.Step{M: "textDocument/completion", P: compParams(f, o.Line, o.Col+2)})
+				cu.stepP2 = len(pc.Steps) - 1
+				pc.Steps = append(pc.Steps, changeStep(f, ver, o.Line, o.Col, o.Line, o.Col+2, o.Name))
+				ver++
+				d.cur = append(d.cur, cu)
+			}
 		}
 		return &Job{PC: pc, Data: d}
 	}
@@ -299,6 +339,19 @@ func c14Judge(c *Ctx, j *Job, res *proto.Result) {
 						c.Rep.Deviation("Dev_InitialiserSeesNewLocal", fmt.Sprintf("completion inside the function that initialises local %s offers %s itself\n%s", l, l, progText(d.r)), j.Raw)
 						continue
 					}
+					if cu.expr {
+						// the statement's own new declaration offered inside its initialiser / bounds (known findings)
+						it := d.items[cu.item]
+						own := l == c14Name(it.ID) || (it.K == "local2" && l == c14Name(it.Mid))
+						if own && (it.K == "local" || it.K == "local2") {
+							c.Rep.Deviation("Dev_InitialiserSeesNewLocal", fmt.Sprintf("completion inside the initialiser of local %s offers %s itself\n%s", l, l, progText(d.r)), j.Raw)
+							continue
+						}
+						if own && (it.K == "fornum" || it.K == "forin") {
+							c.Rep.Deviation("Dev_ForBoundSeesLoopVar", fmt.Sprintf("completion inside the bounds of the loop over %s offers %s itself\n%s", l, l, progText(d.r)), j.Raw)
+							continue
+						}
+					}
 					prob = append(prob, "offers local "+l+" which is not in scope at the cursor")
 				}
 			}
@@ -306,7 +359,7 @@ func c14Judge(c *Ctx, j *Job, res *proto.Result) {
 				continue
 			}
 			sort.Strings(prob)
-			desc := fmt.Sprintf("completion of prefix %q typed at statement %d (column %d) of %s: %s (labels: %s)\n%s", prefix, cu.line, cu.col, d.r.Files[cu.file], strings.Join(prob, "; "), strings.Join(labels, ","), progText(d.r))
+			desc := fmt.Sprintf("completion of prefix %q typed at statement %d (column %d%s) of %s: %s (labels: %s)\n%s", prefix, cu.line, cu.col, map[bool]string{true: ", over the name an expression reads", false: ""}[cu.expr], d.r.Files[cu.file], strings.Join(prob, "; "), strings.Join(labels, ","), progText(d.r))
 			if surveyMode {
 				for _, p := range prob {
 					f := strings.Fields(p)
@@ -321,7 +374,7 @@ func c14Judge(c *Ctx, j *Job, res *proto.Result) {
 }
 
 func checkC14(c *Ctx) {
-	c.Rep.Rule = "Scope.tla programs with TLC's visible-declaration set at every program point; every declaration is spelled with a unique name derived from its id; in an opened document an editor-like didChange types a prefix on a new line at up to four seeded program points (always including the end of the file), completion is requested, and the labels are compared with the visible set: every visible local and every defined global with the prefix must be offered, no local that is not visible may be offered"
+	c.Rep.Rule = "Scope.tla programs with TLC's visible-declaration set at every program point; every declaration is spelled with a unique name derived from its id; in an opened document an editor-like didChange types a prefix on a new line at up to four seeded program points (always including the end of the file) and over up to two names read inside expressions (initialisers, conditions, loop bounds, until-conditions), completion is requested, and the labels are compared with the visible set: every visible local and every defined global with the prefix must be offered, no local that is not visible may be offered"
 	c.Rep.Assumptions = []string{
 		"the matcher is fuzzy, so the prefix half of the statement is asserted as containment; the exclusion half is asserted for scope",
 		"keywords, snippets and built-ins among the labels are ignored (they are not generated names)",
